@@ -808,6 +808,8 @@ func (s *S3Proxy) PutObject(ctx context.Context, input s3response.PutObjectInput
 		ChecksumCRC64NVME: output.ChecksumCRC64NVME,
 		ChecksumSHA1:      output.ChecksumSHA1,
 		ChecksumSHA256:    output.ChecksumSHA256,
+		// the endpoint's x-amz-checksum-type belongs to the answer as well
+		ChecksumType: output.ChecksumType,
 	}, nil
 }
 
